@@ -178,3 +178,36 @@ Qed.
 
 Lemma land1_testbit a : (Z.land a 1 =? 1) = Z.testbit a 0.
 Proof. change 1 with (Z.ones 1) at 1. rewrite Z.land_ones by lia. rewrite Z.bit0_eqb. reflexivity. Qed.
+
+(* ------------------------------------------------------------------------------------------ *)
+(* tactics for SEMANTIC tie proofs: robust against behaviour-preserving refactors of the Go     *)
+(* source (helper extraction, if/switch restructuring, equivalent tests, renamed variables)     *)
+
+(* unfold every generated definition still registered in gcores (also helpers this file has never
+   heard of), reduce lets and matches on tuples *)
+Ltac gnorm := autounfold with gcores; cbv beta iota zeta.
+Ltac gnorm_in H := autounfold with gcores in H; cbv beta iota zeta in H.
+
+(* one destruct per test, remembering the outcome *)
+(* (innermost tests first, so that no remembered test contains an undecided one) *)
+Ltac split_ifs :=
+  repeat (match goal with
+          | |- context [if ?c then _ else _] =>
+              lazymatch c with
+              | context [if _ then _ else _] => fail
+              | _ => destruct c eqn:?
+              end
+          end; cbv beta iota zeta in *).
+
+Ltac tlia := timeout 60 lia.
+
+(* componentwise equality of tuples *)
+Ltac tuple_eq := repeat match goal with |- (_, _) = (_, _) => apply f_equal2 end.
+
+(* a leaf of the case analysis: the two sides agree, or the tests taken are contradictory *)
+Ltac tie_leaf :=
+  solve [ reflexivity | exfalso; tlia | tlia | congruence
+        | tuple_eq; first [ reflexivity | tlia | congruence | f_equal; tlia ] ].
+
+(* generic closing tactic once generated and model definitions are unfolded *)
+Ltac tie_cases := cbv beta iota zeta; split_ifs; tie_leaf.
